@@ -70,6 +70,11 @@ GF == [
   c2  |-> [kind |-> "cond", t |-> "b2T", f |-> "b2F"],
   fa  |-> [kind |-> "fn", sites |-> << SiteKw("c", "c2", <<"pair", <<"eq", Arg, Cn(0)>>, Arg>>), Site("y", "d1", Val("c")) >>,
            ret |-> Val("y")],
+  \* a Cond vectorised directly (per-lane conditions)
+  vc  |-> [kind |-> "vmap", callee |-> "cTF", n |-> 2, bcast |-> FALSE],
+  fvc |-> [kind |-> "fn", sites |-> << Site("z", "d0", Arg),
+                                        Site("v", "vc", <<"seq", <<"pair", <<"eq", Val("z"), Cn(0)>>, Val("z")>>, <<"pair", <<"eq", Val("z"), Cn(1)>>, Add(Val("z"), Cn(1))>>>>) >>,
+           ret |-> <<"sum", Val("v")>>],
   \* cond directly over two distributions
   cdd |-> [kind |-> "cond", t |-> "d0", f |-> "d1"],
   fd  |-> [kind |-> "fn", sites |-> << Site("c", "cdd", <<"pair", <<"eq", Arg, Cn(1)>>, Arg>>), Site("y", "d0", Val("c")) >>,
